@@ -202,7 +202,7 @@ def _session(args):
     from .. import session as S, fills, progs
     from ..core import Violation
     word, pname, prog, kind, fast, emb, p2name, chunk = args
-    prog2 = dict(progs.programs(emb[1], emb[2], kind))[p2name] if p2name else None
+    prog2 = (progs.route_follower(emb[1], emb[2])[1] if p2name == 'route-follower' else dict(progs.programs(emb[1], emb[2], kind))[p2name]) if p2name else None
     case = c02.build_case(word, prog, kind, fast, emb, prog2=prog2, chunk=chunk)
     r = S.run_session(case)
     ident = {'session': True, 'word': list(word), 'program': pname, 'kind': kind, 'fast': fast, 'embedding': list(emb), 'program2': p2name, 'chunk': chunk}
